@@ -426,9 +426,9 @@ func init() {
 		Custom: c05CLI,
 		Scenarios: func(tier string) []*core.Scenario {
 			if tier == "thorough" {
-				return []*core.Scenario{c05Lists(3, []int{4, 8, 16, 32, 64}), c05Resb(true), c05Alignb(), c05NonEmitting(), c05Sequences(3), c05SecondOrg(), c05SequencesIn(2, true)}
+				return []*core.Scenario{c05Lists(3, []int{4, 8, 16, 32, 64}), c05Resb(true), c05Alignb(), c05NonEmitting(), c05Sequences(3), c05SecondOrg(), c05SequencesIn(2, true), c05Escapes(), c05BehindGrownBranch()}
 			}
-			return []*core.Scenario{c05Lists(2, []int{4, 64}), c05Resb(false), c05Alignb(), c05NonEmitting(), c05Sequences(3), c05SecondOrg(), c05SequencesIn(2, true)}
+			return []*core.Scenario{c05Lists(2, []int{4, 64}), c05Resb(false), c05Alignb(), c05NonEmitting(), c05Sequences(3), c05SecondOrg(), c05SequencesIn(2, true), c05Escapes(), c05BehindGrownBranch()}
 		},
 		Assumptions: []string{
 			"sentinel DB lines of eight small hexadecimal literals assemble to exactly those bytes (they are themselves members of the explored DB space)",
